@@ -1030,6 +1030,14 @@ class Summariser:
             v = truth[key]
             yield truth, {}, (not v) if flip else v
             return
+        if isinstance(t, ast.Compare) and len(t.ops) == 1 and isinstance(t.ops[0], (ast.Is, ast.IsNot)):
+            # X is None, after isinstance(X, C) was found true on this path: an instance of a class is not None
+            for s_side, o_side in ((t.left, t.comparators[0]), (t.comparators[0], t.left)):
+                if isinstance(o_side, ast.Constant) and o_side.value is None and isinstance(s_side, (ast.Name, ast.Attribute)):
+                    pre = f"isinstance({ast.unparse(s_side)}, "
+                    if any(k_.split("@")[0].startswith(pre) and v_ is True for k_, v_ in truth.items()):
+                        yield truth, {}, isinstance(t.ops[0], ast.IsNot)
+                        return
         if isinstance(t, ast.Name) and t.id in self._conds:
             for tr2, new2, v in self._decide(self._conds[t.id], truth, ep):
                 if v is not None:
